@@ -19,10 +19,39 @@
 (*    C > 0 and [l0lo, l0hi]/Q for the others.  "score i < score j" is     *)
 (*    claimed only when the enclosures are disjoint (Below); everything    *)
 (*    else is a tie / ambiguity and BOTH outcomes are allowed (and the     *)
-(*    instance is counted as ambiguous).  No tolerance is involved.        *)
+(*    instance is counted as ambiguous).  The enclosures are exact; the    *)
+(*    real aggregators compute the scores in floating point, so a gap is   *)
+(*    only claimed when it also exceeds the accumulated rounding of a      *)
+(*    float32 score (Margin: derived from the number of terms; no tuned    *)
+(*    tolerance is involved).                                              *)
 (*                                                                         *)
 (* Fault action Corrupt(i, p): replace row i by pattern p; enabled while   *)
 (* fewer than b (resp. f) rows are corrupted.                              *)
+(*                                                                         *)
+(* Instance families.                                                      *)
+(*  small   m <= MaxM rows, every fault sequence over the pattern set;     *)
+(*          honest matrices from HSeeds (generic entries -3..3) and, for   *)
+(*          TrimmedMean, from TSeeds: TIE-HEAVY matrices (a column on      *)
+(*          which all rows agree on a non-zero value, a nearly unanimous   *)
+(*          +-1 sign column, quantised -1/0/1 columns, duplicated rows),   *)
+(*          where "the b largest" and "the b smallest" overlap in value    *)
+(*          (sorted[b] = sorted[m-b+1]) for every admissible b, including  *)
+(*          2b + 1 = m.                                                    *)
+(*  many    m in ManyM (more than MaxM rows, up to ~40), Krum only: the    *)
+(*          honest rows are a small integer SPREAD (entries -3..3); ONE    *)
+(*          seed-determined fault sequence per (m, seed, f) replaces, in   *)
+(*          ManySteps block steps, up to f rows (CorruptBlock); f is       *)
+(*          sampled over its admissible range (FSamples), every k is       *)
+(*          exported.  The 2^m subsets are not enumerated: the selection   *)
+(*          is given by MustIn / MayIn, unique iff |MustIn| = k.           *)
+(* Common offset.  Every scenario (all families) is ALSO presented as      *)
+(* J + o * 1 1^T for the offsets o = oa + ob*S of Offsets (o = 2^17 is     *)
+(* exact in float32 next to the spread, o = S = 2^39 in float64): "large   *)
+(* common mean + small spread".  Dist2 only uses differences of rows, so   *)
+(* the distances, the scores and hence the exact Krum selection are those  *)
+(* of the spread matrix, and TrimmedMean(J + o) = TrimmedMean(J) + o       *)
+(* (OffsetInvariant, checked by TLC).  The offset is carried exactly and   *)
+(* is never added to anything that is squared.                             *)
 (*                                                                         *)
 (* Property layer: TrimmedMean = per column, remove the largest and the    *)
 (* smallest entry b times, average the rest (PropTM); the result lies in   *)
@@ -31,7 +60,7 @@
 (* the output is the plain average of T.  Too few rows => rejected.        *)
 (* Implementation-shaped layer: sort / narrow(start=b, length=m-2b) / mean *)
 (* by ranks (ImplTM).  TLC checks ImplTM = PropTM and the range clause in  *)
-(* every reachable state, for all admissible (b), (f, k), m <= MaxM.       *)
+(* every reachable state, for all admissible (b), (f, k).                  *)
 (***************************************************************************)
 EXTENDS Integers, Sequences, FiniteSets, TLC, Json, Rat
 
